@@ -59,7 +59,8 @@ SPEC = {
                   "registration list has its own model, theorems and lock-step suite), critical sections under file.mu are one step, the file-level protocol "
                   "inside lookup (C04), timers. The extension of the file from inside a lock holder's own lookup IS modelled (LLook2 with s_full: "
                   "store of the new mapping, inline invalidate / refresh / close, assignment of the returned pointer; C03_grower_must_look_up_again); "
-                  "a second, nested extension inside the refresh of that cleanup is not (a file that was just extended has room), nor is an extension by a CHANGER's own lookup (first open of an existing full file by a process with pending counters). 'no fault' is refuted "
+                  "the same extension by a CHANGER's own refresh-lookup (first open - target FullFile - of an existing file without room, by a process with pending increments) is modelled too (t_prev2: the mapping a thread's own lookup replaced; lock-step scenario openfull); "
+                  "a second, nested extension inside the refresh of that cleanup is not (a file that was just extended has room). 'no fault' is refuted "
                   "(known finding use-after-unmap) and characterised exactly (C03_no_entry_through_closed_mapping); 'waits forever' is proved as obstruction freedom (C03_no_call_waits: a call running alone returns within a bounded number of its own steps from every reachable state); starvation under an adversarial scheduler that keeps making other goroutines succeed is not excluded (lock-free, not wait-free).",
     "assumptions": [
         "sequentially consistent atomics (sync/atomic); fewer than 2^30-1 goroutines inside Add at once",
